@@ -6,7 +6,7 @@ import sys
 
 sys.path.insert(0, os.path.dirname(os.path.dirname(os.path.abspath(__file__))))
 from vlib import build
-from vlib.common import Check, main_guard, run, sanitizer_key
+from vlib.common import Check, NCPU, main_guard, pmap, run, sanitizer_key
 
 
 def main():
@@ -16,27 +16,43 @@ def main():
     tot = {"states": 0, "transitions": 0, "traces": 0, "calls": 0}
     samples = []
     per = {}
+    jobs = []
     for variant, depth, exp in plans:
         exe = build.harness(variant, "c09_protocol", ["c09_protocol.cc"])
+        nsh = NCPU if variant == "plain" else max(2, NCPU // 4)
+        for sh in range(nsh):
+            jobs.append((variant, depth, exp, exe, sh, nsh))
+
+    def one(j):
+        variant, depth, exp, exe, sh, nsh = j
         env = build.lib_env(variant)
         env.pop("BXDECAY0_DBD_GA_DATA_DIR", None)
-        rc, out, err = run([exe, str(chk.seed), str(depth), str(exp)], timeout=7200, env=env)
+        return j + run([exe, str(chk.seed), str(depth), str(exp), str(sh), str(nsh)], timeout=7200, env=env)
+
+    probes = 0
+    seen_keys = set()
+    for (variant, depth, exp, exe, sh, nsh, rc, out, err) in pmap(one, jobs, jobs=NCPU):
         recs = [json.loads(l) for l in out.splitlines() if l.startswith("{")]
         if rc != 0 or not recs:
             k = sanitizer_key(err)
             if k:
                 chk.violation("sanitizer|" + k, "protocol exploration (%s build) aborted: %s" % (variant, err[-800:]), {"stderr": err[-4000:]})
             else:
-                chk.inconclusive_("c09_protocol (%s) exited %s: %s" % (variant, rc, err[-400:]))
+                chk.inconclusive_("c09_protocol (%s, shard %d) exited %s: %s" % (variant, sh, rc, err[-400:]))
             continue
         r = recs[0]
-        per[variant] = {k: r[k] for k in ("states", "transitions", "traces", "calls", "alphabet", "max_depth")}
-        if variant == "plain":
+        probes += r["reset_probes"]
+        if sh == 0:
+            per[variant] = {k: r[k] for k in ("states", "transitions", "traces", "calls", "alphabet", "max_depth")}
+        if variant == "plain" and sh == 0:
             for k in tot:
                 tot[k] = r[k]
             samples.append({"trace": r["sample"], "note": "every trace is replayed on a fresh decay0_generator next to the model"})
         for m in r["mismatches"]:
-            chk.violation(m["key"], m["detail"], {"variant": variant, "minimal_sequence": m["detail"], "cmd": "%s %d %d %d" % (exe, chk.seed, depth, exp)})
+            if (variant, m["key"]) in seen_keys:
+                continue
+            seen_keys.add((variant, m["key"]))
+            chk.violation(m["key"], m["detail"], {"variant": variant, "minimal_sequence": m["detail"], "cmd": "%s %d %d %d %d %d" % (exe, chk.seed, depth, exp, sh, nsh)})
     chk.require(tot["states"] >= 500, "only %d model states reached" % tot["states"])
     chk.coverage.update({
         "states": tot["states"],
@@ -47,11 +63,14 @@ def main():
         "distinct_nontrivial": tot["states"],
         "rule": "breadth-first over MODEL states (initialised flag, 7 configuration fields, #operations, event count <= 2, version flag): every "
                 "(state, operation) pair within the depth bound is executed on the real object by replaying the shortest sequence reaching the "
-                "state; after each call: throws <=> model, all getters == model, reset == freshly constructed, failed initialize => still usable",
+                "state; after each call: throws <=> model, all getters == model, reset == freshly constructed (getters, and behaviourally: the same partial "
+                "configuration Zn70/0/mode 5 without a window applied to the reset object and to a fresh one gives the same full/window ratio, deviate count "
+                "and first event), failed initialize => still usable",
+        "behavioural_reset_probes": probes,
         "per_build": per,
         "exhaustive": True,
     })
-    chk.assumptions += ["alphabet of 23 operations over cheap configurations (background K40, Mo100/Zn70 modes 1, 3, 5, gA mode 21 without data)",
+    chk.assumptions += ["alphabet of 25 operations (incl. half-open energy windows: one limit NaN) over cheap configurations (background K40, Mo100/Zn70 modes 1, 3, 5, gA mode 21 without data)",
                         "set_debug is not part of the alphabet (the debug flag is a management attribute that reset() keeps)"]
     chk.finish()
 
